@@ -1008,6 +1008,19 @@ def run_fault(ctx, prop, w, cfg, cfgcls, fault, as_string, d1, counts, refs, e1s
         for (r, rule, par, pos, strong) in lst:
             if r() is not None:
                 alive_parsed += 1
+    # independent of the two hooks above: any instance of a class of this metamodel that the collector still knows
+    # (objects built before a failure inside tree construction are seen by no hook when they are not user objects)
+    mm2 = e2.mm
+    alive_any = [o for o in gc.get_objects()
+                 if getattr(type(o), "_tx_metamodel", None) is mm2 and hasattr(type(o), "_tx_attrs")
+                 and not isinstance(o, type)]
+    n_any = len(alive_any)
+    kinds_any = sorted({type(o).__name__ for o in alive_any})
+    del alive_any
+    if n_any and not (alive_new or alive_parsed):
+        ctx.violate("C15", "garbage-collectable", where + "/gc-scan",
+                    f"{n_any} object(s) of the failed load's metamodel classes {kinds_any} are still alive after gc "
+                    f"(found by scanning the collector's objects)")
     if alive_new or alive_parsed:
         holders = _describe_holders(rec)
         ctx.violate("C15", "garbage-collectable", where,
